@@ -16,7 +16,8 @@ Per property (lib/props.py) the driver
      `VIOLATION property=<id> replay=<path>` (exit 1) — or `KNOWN-FINDING:` (exit 0) when the
      failure is listed in known_findings.json; a counterexample that does not reproduce is an
      encoding problem: exit 2,
-  5. writes evidence/<id>.json.
+  5. writes evidence/<id>.json (only from a run that decided at least two harnesses and was not
+     interrupted: see write_evidence and _interrupted).
 
 Exit codes: 0 held on everything explored; 1 violation; 2 inconclusive (never a pass).
 """
@@ -48,8 +49,48 @@ def log(msg):
     print(msg, flush=True)
 
 
+_CHILD = None  # the tool process currently running (cargo kani / cargo test), for the signal handler
+
+
+def _descendants(pid):
+    """All live descendants of `pid`, from /proc (cargo kani -> kani-driver -> cbmc ...)."""
+    kids = {}
+    for e in os.listdir("/proc"):
+        if not e.isdigit():
+            continue
+        try:
+            with open("/proc/%s/stat" % e) as fh:
+                st = fh.read()
+            ppid = int(st[st.rindex(")") + 2:].split()[1])
+        except (OSError, ValueError, IndexError):
+            continue
+        kids.setdefault(ppid, []).append(int(e))
+    out, todo = [], [pid]
+    while todo:
+        for k in kids.get(todo.pop(), []):
+            out.append(k)
+            todo.append(k)
+    return out
+
+
+def _interrupted(signum, frame):
+    """SIGTERM / SIGINT / SIGHUP: an interrupted run is not a record of anything. Stop the tools and
+    leave evidence/<id>.json as it is (a run killed half way once wrote 'nothing decided' over the
+    evidence of the last complete run)."""
+    import signal
+    for k in reversed(_descendants(os.getpid())):
+        try:
+            os.kill(k, signal.SIGKILL)
+        except OSError:
+            pass
+    sys.stdout.write("[driver] interrupted by signal %d: no verdict, evidence file not written\n" % signum)
+    sys.stdout.flush()
+    os._exit(128 + signum)
+
+
 def sh(cmd, cwd=None, timeout=None, env=None, mem_gb=None):
     """Run a command, return (rc, combined output, seconds). rc=-9 on timeout."""
+    global _CHILD
     t0 = time.time()
     pre = None
     if mem_gb:
@@ -59,24 +100,32 @@ def sh(cmd, cwd=None, timeout=None, env=None, mem_gb=None):
             lim = int(mem_gb * (1 << 30))
             resource.setrlimit(resource.RLIMIT_AS, (lim, lim))
 
+    p = subprocess.Popen(
+        cmd,
+        cwd=cwd,
+        env=env or ENV,
+        stdout=subprocess.PIPE,
+        stderr=subprocess.STDOUT,
+        text=True,
+        errors="replace",
+        preexec_fn=pre,
+    )
+    _CHILD = p
     try:
-        p = subprocess.run(
-            cmd,
-            cwd=cwd,
-            env=env or ENV,
-            stdout=subprocess.PIPE,
-            stderr=subprocess.STDOUT,
-            timeout=timeout,
-            text=True,
-            errors="replace",
-            preexec_fn=pre,
-        )
-        return p.returncode, p.stdout, time.time() - t0
-    except subprocess.TimeoutExpired as e:
-        out = e.stdout or ""
-        if isinstance(out, bytes):
-            out = out.decode(errors="replace")
-        return -9, out, time.time() - t0
+        out, _ = p.communicate(timeout=timeout)
+        return p.returncode, out, time.time() - t0
+    except subprocess.TimeoutExpired:
+        import signal
+        for k in reversed(_descendants(p.pid)):
+            try:
+                os.kill(k, signal.SIGKILL)
+            except OSError:
+                pass
+        p.kill()
+        out, _ = p.communicate()
+        return -9, out or "", time.time() - t0
+    finally:
+        _CHILD = None
 
 
 # ---------------------------------------------------------------------------------------------
@@ -274,6 +323,7 @@ def _run_names(unit, pid, tier, jobs, timeout_s, names, part):
             "covers_unsatisfiable": covers_unsat,
             "symex_s": cb.get("runtime_symex_s"),
             "solver_s": cb.get("runtime_solver_s"),
+            "symex_steps": cb.get("size_program_expression"),
             "vccs_generated": cb.get("vccs_generated"),
             "vccs_remaining": cb.get("vccs_remaining"),
             "repo_functions": sorted(funcs),
@@ -469,7 +519,12 @@ def write_evidence(pid, tier, seed, spec, all_results, metas, wall, violations, 
     funcs = set()
     symex = solver = 0.0
     verified = 0
+    steps = vccs = vccs_solved = replayed = 0
     for n, r in sorted(all_results.items()):
+        steps += r.get("symex_steps") or 0
+        vccs += r.get("vccs_generated") or 0
+        vccs_solved += r.get("vccs_remaining") or 0
+        replayed += 1 if r.get("replayed_dev") is not None else 0
         harnesses.append({k: v for k, v in r.items() if k != "repo_functions"} | {"harness": n})
         obligations += r.get("checks_total", 0) or 0
         discharged += (r.get("checks_passed", 0) or 0) + (r.get("checks_unreachable", 0) or 0)
@@ -523,6 +578,15 @@ def write_evidence(pid, tier, seed, spec, all_results, metas, wall, violations, 
             "solver_time_s": round(solver, 2),
             "symex_time_s": round(symex, 2),
             "queries_discharged": verified,
+            # CBMC's own size figures, summed over the harnesses of this run: SSA steps of the unwound
+            # program equations, verification conditions generated, and those left for the SAT solver
+            # after simplification (the rest were discharged by constant propagation / slicing)
+            "symex_steps": steps,
+            "vccs_generated": vccs,
+            "vccs_decided_by_sat": vccs_solved,
+            # solver counterexamples replayed natively against the real code in this run (0 on a
+            # tree where nothing failed; known findings are re-found and replayed on every run)
+            "counterexamples_replayed_natively": replayed,
             "harnesses": harnesses,
             "units": metas,
             "exhaustive": False,
@@ -534,7 +598,15 @@ def write_evidence(pid, tier, seed, spec, all_results, metas, wall, violations, 
     if extra:
         ev["coverage"].update(extra)
     os.makedirs(os.path.join(VERIF, "evidence"), exist_ok=True)
-    with open(os.path.join(VERIF, "evidence", pid + ".json"), "w") as fh:
+    dest = os.path.join(VERIF, "evidence", pid + ".json")
+    if verified < 2:
+        # A run in which (next to) nothing was decided - build failure, wall cap, every query out of
+        # time - is not evidence of coverage (EVIDENCE.schema.json wants at least two decided,
+        # distinct cases) and must not replace the record of the last run that did decide something.
+        # It exits 2 anyway; what happened is kept next to the logs.
+        dest = os.path.join(WORK, "undecided-%s-%s.json" % (pid, tier))
+        log("[%s] only %d harness(es) decided: not an evidence record, written to %s" % (pid, verified, dest))
+    with open(dest, "w") as fh:
         json.dump(ev, fh, indent=1)
 
 
@@ -555,6 +627,9 @@ def main():
         return 2
     os.makedirs(WORK, exist_ok=True)
     t0 = time.time()
+    import signal
+    for sig in (signal.SIGTERM, signal.SIGINT, signal.SIGHUP):
+        signal.signal(sig, _interrupted)
 
     if args.replay:
         return do_replay(pid, spec, args.replay)
